@@ -127,11 +127,10 @@ ConsAsEdges(r, c) ==   \* a constraint of the record as a sequence of user-graph
   c
 RouteHonours(r, c, p) ==
   LET n == r.cov[1]  d == r.cov[2] IN
-  IF r.cons_kind = "node"
+  IF r.cls \in DAGCls /\ UsesLengthCoverage(r) THEN RouteHonoursByLength(r, c, p)
+  ELSE IF r.cons_kind = "node"
   THEN  \* node constraints: a list of nodes; coverage counted over listed nodes
        Cardinality({j \in 1..Len(c) : Visits(c[j], p) >= 1}) * d >= Len(c) * n
-  ELSE IF r.cls \in DAGCls /\ UsesLengthCoverage(r)
-       THEN HonouredByLength(r, c, {j \in 1..Len(c) : Count(c[j], p) >= 1})
   ELSE IF r.cls \in DAGCls THEN HonouredList(c, p, n, d) ELSE HonouredSet(c, p, n, d)
 
 Holds(c, r) ==
